@@ -113,6 +113,8 @@ package atree
 //@   modifies i.nextIndex, i.array.mutableElementIndex, Array.parentUpdater, OrderedMap.parentUpdater, alloc
 
 //@ iface mutableValueNotifier.setParentUpdater(f)
+//@   conform all
+//@   serves C10 C11
 //@   modifies Array.parentUpdater, OrderedMap.parentUpdater
 
 //@ func (a *Array) setParentUpdater(f)  serves C10
